@@ -66,7 +66,7 @@ KINDS = [("new", 16), ("new", 17), ("new", 20), ("new", 32), ("new", 64), ("new"
          ("node", 0), ("node", 25), ("node", 100), ("node", 216), ("node", 217)]
 
 
-BIG_KINDS_QUICK = [("new", 16), ("new", 256), ("alloc", 65535)]
+BIG_KINDS_QUICK = [("new", 16), ("new", 256)]
 
 
 def _lens(mx):
@@ -83,10 +83,17 @@ def _triples(tier):
         if tier == "quick":
             big_old = [65534] if kind in BIG_KINDS_QUICK else []
             big_new = [65534, 65535, 65536] if kind in BIG_KINDS_QUICK else []
+            if kind == ("new", 256):
+                small_for_big = [0, mx - 1, mx + 1]
+            else:
+                small_for_big = None
         else:
             big_old = [65533, 65534, 65535]
             big_new = [65533, 65534, 65535, 65536]
         pairs = [(o, n) for o in small + big_old for n in small + big_new]
+        if tier == "quick" and kind in BIG_KINDS_QUICK and kind != ("new", 16):
+            # long contents against a few short ones only
+            pairs = [(o, n) for (o, n) in pairs if (o <= 1000 and n <= 1000) or (o in small_for_big or n in small_for_big)]
         if tier == "quick":
             # two long contents in one script only for the smallest storage
             pairs = [(o, n) for (o, n) in pairs if not (o > 1000 and n > 1000) or kind == ("new", 16)]
@@ -138,19 +145,34 @@ def _self_and_nodes(tier):
                                 ["i reset", "i %s %d" % kind, "i set 0 %s" % _data(ln), "i setself 0 %d %d" % (off, take),
                                  "i setself 0 0 %d" % max(0, take - 1), "i free 0"]))
     # node lists: short/long/equal/prefix names; every start and position form
-    names = [_data(3), _data(19), _data(20), _data(21), "rep:61:100", "rep:61:101", _data(3), "rep:61:100", "-"]
+    late = "61" * 99 + "62"      # as long as rep:61:100, differs in the last byte only
+    mid = "61" * 30 + "7a" + "61" * 69
+    names = [_data(3), _data(19), _data(20), _data(21), "rep:61:100", "rep:61:101", _data(3), late, "-"]
     lines = ["i reset"] + ["i node %d" % n for n in (0, 0, 30, 100, 0, 217, 0, 0, 0)]
     lines += ["i set %d %s" % (k, nm) for k, nm in enumerate(names)]
-    probes = sorted(set(names)) + [_data(2), "rep:61:99", "rep:62:100", "6100"]
+    probes = sorted(set(names)) + [_data(2), "rep:61:99", "rep:62:100", "6100", mid, "rep:61:100"]
+    def _hexof(d):
+        if d == "-":
+            return ""
+        if d.startswith("rep:"):
+            _, hh, n = d.split(":")
+            return hh * int(n)
+        return d
     for start in range(9):
         for pos in (1, 2, 3, 0, -1, -2):
             for pr in probes:
                 if tier == "quick" and (start * 7 + pos + len(pr)) % 3:
                     continue
+                # the name in a block of exactly its size (nothing readable behind it) ...
                 lines.append("i locate %d %d %s" % (start, pos, pr))
+                # ... and as a slice of a longer buffer ("name.sub/xy"): the byte behind it is not a terminator
+                hx = _hexof(pr)
+                if len(hx) <= 400:
+                    lines.append("i locate %d %d %s2e7375622f7879 %d" % (start, pos, hx, len(hx) // 2))
         for pr in probes + ["null"]:
             lines.append("i next %d %s" % (start, pr))
-    lines += ["i set 3 null 100", "i locate 0 1 rep:00:99", "i locate 0 1 rep:00:100", "i free 4", "i locate 0 2 rep:61:100", "i locate 8 -1 %s" % _data(3),
+    lines += ["i set 3 null 100", "i locate 0 1 rep:00:99", "i locate 0 1 rep:00:100", "i set 1 null 1", "i next 0 -", "i locate 0 1 -", "i locate 0 1 00",
+              "i set 1 -", "i next 0 -", "i locate 0 1 -", "i free 4", "i locate 0 2 rep:61:100", "i locate 8 -1 %s" % _data(3),
               "i locate 0 1 616263 2", "i locate 9 1 61", "i locate 0 21 61", "i locate 0 -0 61", "i locate 0 1 null", "i next 0", "i new 16", "i locate 9 1 61"]
     lines += ["i free %d" % k for k in (0, 1, 2, 3, 5, 6, 7, 8, 9)]
     out.append(("nodes:list", lines))
@@ -176,7 +198,7 @@ class _XX:
         sizes = [16, 17, 32, 64, 256, 300]
         for size in sizes:
             mx = min(size - 4, 252)
-            lens = sorted({0, 1, 5, 9, mx - 1, mx, mx + 1, 300}) + ([65534, 65535] if size in (16, 256) else [])
+            lens = sorted({0, 1, 5, 9, mx - 1, mx, mx + 1, 300}) + ([65534, 65535] if size == 16 or (size == 256 and tier != "quick") else [])
             for old in lens:
                 for new in lens:
                     if tier == "quick" and old > 1000 and new > 1000 and size != 16:
@@ -264,7 +286,7 @@ def _random(tier, seed, scale):
                 break
             a = r.choice(live)
             mx = caps[a]
-            ln = r.choice([0, 1, 3, 4, 5, 8, 9, mx - 2, mx - 1, mx, mx + 1, mx + 7, 300, r.randrange(0, 400), 65534, 65535])
+            ln = r.choice([0, 1, 3, 4, 5, 8, 9, mx - 2, mx - 1, mx, mx + 1, mx + 7, 300, r.randrange(0, 400)] * (3 if tier == "quick" else 1) + [65534, 65535])
             ln = max(0, ln)
             kind = r.choice(["set", "set", "set", "setn", "null", "copy", "copy", "copy", "cmp", "cmp", "ineq", "free", "tinit", "tfini", "bad", "self", "loc"])
             if kind == "set":
